@@ -78,12 +78,15 @@ def delayed_doc(rng):
     states = ""
     for i in range(n):
         send = '<onentry><send event="t%d" delay="%dms" id="snd%d"/></onentry>' % (i, delays[i], i) if rng.random() < 0.7 else ""
+        # delayed events only lead to states that send nothing: a delayed event sent on the arrival of another one could
+        # become due within a millisecond of a third (the delays differ by multiples of 80 ms), and which of the two the
+        # timer thread hands over first would then be a matter of scheduling, not of serialization
         states += ('<state id="s%d">%s<transition event="n" target="s%d"/><transition event="t%d" target="late%d"/></state>'
-                   '<state id="late%d"><transition event="n" target="s%d"/><transition event="t%d" target="s%d"/></state>'
+                   '<state id="late%d"><transition event="n" target="s%d"/><transition event="t%d" target="late%d"/></state>'
                    % (i, send, (i + 1) % n, (i + rng.randrange(n)) % n, i, i, (i + 1) % n, rng.randrange(n), rng.randrange(n)))
     doc = '<scxml xmlns="http://www.w3.org/2005/07/scxml" version="1.0" datamodel="null" initial="s0">%s</scxml>' % states
     pre = ["n"] * rng.randint(0, 3)
-    cont = ["~600"] + [rng.choice(["n", "~500"]) for _ in range(rng.randint(0, 3))] + ["~600"]
+    cont = ["~1000"] + [rng.choice(["n", "~1000"]) for _ in range(rng.randint(0, 2))] + ["~1000"]
     other = '<scxml xmlns="http://www.w3.org/2005/07/scxml" version="1.0" datamodel="null"><state id="x"/><state id="y"/></scxml>'
     return doc, pre, cont, other
 
@@ -176,4 +179,9 @@ def run(ctx):
     ctx.coverage["evaluations"] = st["inputs"]
     ctx.coverage["distinct_nontrivial"] = st["identical"]
     ctx.coverage["rule"] = "random charts x prefix history; snapshot at the first stable configuration after the last prefix event (self-sent external events may be pending); serialize, deserialize into a fresh interpreter for the same document and for another one, run the continuation on both; both engines, null and lua (2 variables) datamodels; identical = same notifications, logs, configurations and a second snapshot that is byte-identical; plus the late-data family (lua, binding late/early, <data> inside states of a ring, counted up on entry and tested by conditions, snapshot anywhere in the history)"
-    ctx.assumptions += ["invokers are not in the generated fragment (see DESIGN.md C14 partial)", "pending delayed events: differential only (the Lean snapshot model covers the engine state and the external queue), waits of 500-600 ms between 120-440 ms delays"]
+    ctx.assumptions += ["invokers are not in the generated fragment (see DESIGN.md C14 partial)", "pending delayed events: differential only (the Lean snapshot model covers the engine state and the external queue), after every continuation step the harness waits until 1000 ms pass without an event (delays are 120-440 ms)"]
+
+
+def replay(ctx, path):
+    import uvlib
+    return uvlib.generic_replay(ctx, path, [(None, "serial", None, None)])
